@@ -437,7 +437,11 @@ returned `k` is the generalised inverse of the binomial CDF at `u`: `F(j) < u` f
 theorem binomial_inversion_spec (fuel n : Nat) (p : ℝ) (h0 : 0 < p) (h1 : p < 1) (g g' : Rng) (k : Nat)
     (h : Binomial.inversion fuel n p g = some (k, g')) :
     g' = (g.f64 (α := ℝ)).2 ∧ (∀ j < k, binCDF n p j < (g.f64 (α := ℝ)).1) ∧ (g.f64 (α := ℝ)).1 ≤ binCDF n p k := by
-  have hpow : Transc.pow (1 - p) ((n : ℕ) : ℝ) = (1 - p) ^ n := Real.rpow_natCast _ _
+  have hpow : Transc.exp (((n : ℕ) : ℝ) * Log1p.log1p (-p)) = (1 - p) ^ n := by
+    show Real.exp ((n : ℝ) * Real.log (1 + -p)) = (1 - p) ^ n
+    have hq : 0 < 1 + -p := by linarith
+    rw [mul_comm, Real.exp_mul, Real.exp_log hq, Real.rpow_natCast]
+    first | rfl | (congr 1; ring)
   simp only [Binomial.inversion, hpow] at h
   cases hl : Binomial.invLoop (((n : ℝ) + 1) * (p / (1 - p))) (p / (1 - p)) fuel (g.f64 (α := ℝ)).1 ((1 - p) ^ n) 0 with
   | none => rw [hl] at h; simp at h
